@@ -107,6 +107,7 @@ class Ctx:
         self.path_id = run.next_path_id()
         self.covers = set()
         self.ghost = {}
+        self.aux = {}
         self.facts_seen = set()
 
     # -- symbols ------------------------------------------------------------------------
@@ -245,6 +246,8 @@ class Ctx:
             if r2 == "unsat":
                 status, backend = "discharged", "cvc5"
             detail = (detail + " z3:unknown(%s)" % s.reason_unknown()).strip()
+        if status != "discharged" and os.environ.get("PYVC_DEBUG"):
+            print("DEBUG %s %s path=%d\n  goal: %s\n  decisions: %s" % (status, name, self.path_id, goal, self.decisions))
         ob = Obligation(name, status, backend, time.time() - t0, self.path_id, model, detail, size)
         self.run.record(ob)
         # assert-then-assume: later obligations on this path may rely on the goal
@@ -344,6 +347,8 @@ class Run:
         self.undecided_reason = None
         self.use_cvc5 = cvc5
         self.path_outcomes = {}
+        self.kept = set()
+        self.oblig_prefix = name + "/"
 
     def next_path_id(self):
         return next(self.path_counter)
@@ -374,7 +379,10 @@ class Run:
             except PathEnd as e:
                 outcome = "end:%s" % (e.args[0] if e.args else "")
             except Undecided as e:
-                self.undecided_reason = "unsupported: %s" % (e.args[0] if e.args else "")
+                import traceback
+                tb = traceback.extract_tb(e.__traceback__)
+                where = " <- ".join("%s:%d" % (os.path.basename(f.filename), f.lineno) for f in tb[-4:])
+                self.undecided_reason = "unsupported: %s [%s]" % (e.args[0] if e.args else "", where)
                 outcome = "undecided"
             finally:
                 CUR = None
